@@ -1,7 +1,7 @@
 """C15 - copy, deepcopy and pickle round-trips preserve and decouple objects.
 
 Domain   object graphs of every family (pbt/hist.py roots + tables with schema chains, Schema, Database, AliasedQuery,
-         NOT wrappers around delegating calls, Interval) x {copy, deepcopy, pickle protocol 2..5} x a generated suffix of
+         NOT wrappers around delegating calls, Interval) x {copy, deepcopy, pickle protocol 0..5} x a generated suffix of
          builder calls applied to the original and to the duplicate.
 Oracle   preserve: same type, identical render snapshot, duplication raises nothing; decouple: after every suffix call the
          original and the duplicate still render as before and each derived object equals its linear twin; deepcopy/pickle
@@ -21,7 +21,7 @@ from pbt.props import c01
 
 ID = "C15"
 RULE = ("object graphs from every builder family plus tables with schema chains / temporal clauses / query_cls, Schema, Database, AliasedQuery, "
-        "NOT-wrapped delegating calls and Interval, duplicated by copy.copy, copy.deepcopy or a pickle round trip (protocols 2-5), followed by up to 5 "
+        "NOT-wrapped delegating calls and Interval, duplicated by copy.copy, copy.deepcopy or a pickle round trip (protocols 0-5), followed by up to 5 "
         "builder calls on either side; plus every (family, method) pair of every menu called on either side of a fresh duplicate (enumerated), with the object state (not only its renderings) compared. Non-trivial = the graph has a class with dynamic attribute lookup (Selectable, Schema, Database, Not) or a nested "
         "builder, and at least one suffix call; distinct = distinct (graph, mechanism, suffix).")
 ASSUMPTIONS = [
@@ -29,7 +29,7 @@ ASSUMPTIONS = [
     "graphs are built through the public API only (no harness-defined classes), so everything is expected to pickle",
 ]
 
-MECHS = ["copy", "deepcopy", "pickle2", "pickle3", "pickle4", "pickle5"]
+MECHS = ["copy", "deepcopy", "pickle0", "pickle1", "pickle2", "pickle3", "pickle4", "pickle5"]
 EXTRA_FAMILIES = ["table_schema", "schema", "database", "aliasedquery", "not_delegate", "interval"]
 K = gen.ALL_KEYS
 
